@@ -893,7 +893,7 @@ func init() {
 	})
 
 	register(&Rule{
-		ID: "pool.reset-clears-references", Props: []string{"C16", "C01"}, Floor: 8,
+		ID: "pool.reset-clears-references", Props: []string{"C16", "C01", "C06"}, Floor: 8,
 		Doc: "when a context is recycled (EntryContext.Reset and the reset methods it calls on the pooled SentinelInput and TokenResult) every field of these three structs that can carry state of the previous entry is written: each field is stored in the type's reset method, or is a pooled sub-object whose own reset method is called there. A surviving reference (e.g. the block error of the previous entry) shows up in a later, unrelated entry that receives the recycled context",
 		Run: func(c *Ctx) {
 			type spec struct{ typ, reset string }
